@@ -92,3 +92,33 @@ package clickhouse_planner
 //@   check upper-date: result1 == nil ==> fmtDay >= fdiv(ctx.To.UnixNano(), 86400000000000)
 //@ func (*ValuesPlanner).Process [C13]
 //@   check upper-date: result1 == nil ==> fmtDay >= fdiv(ctx.To.UnixNano(), 86400000000000)
+
+// ---------------------------------------------------------------- line filters (C07 operator mapping, C14 re-execution)
+
+//@ func (*LineFilterPlanner).re2Like
+//@   modifies nothing
+//@ func (*LineFilterPlanner).doLike
+//@   modifies nothing
+//@ func (*LineFilterPlanner).doLikeVal
+//@   modifies nothing
+
+// A prepared plan is executed again by live tailing: Process must not change
+// the planner's configuration (frame: only the statement being built and the
+// context's id counter change). Regex filters that are not plain literals
+// become match(string, pattern) == 1 for |~ and == 0 for !~.
+//@ func (*LineFilterPlanner).Process [C07,C14]
+//@   modifies whereArgs, ctx.id
+//@   check regex-negation: result1 == nil && len(whereArgs) == 1 && typeis(whereArgs[0], "*sql.LogicalOp") && len(unbox(whereArgs[0], "*sql.LogicalOp").clauses) == 2 &&
+//@         typeis(unbox(whereArgs[0], "*sql.LogicalOp").clauses[0], "*sqlMatch") ==> isIntCmp(whereArgs[0]) && opOf(whereArgs[0]) == "==" && intOf(whereArgs[0]) == (l.Op == "!~" ? 0 : 1)
+//@   replay:
+//@     import "github.com/metrico/qryn/reader/logql/logql_transpiler_v2/shared"
+//@     import sql "github.com/metrico/qryn/reader/utils/sql_select"
+//@     top: type replayMain struct{}
+//@     top: func (replayMain) Process(ctx *shared.PlannerContext) (sql.ISelect, error) { return sql.NewSelect().Select(sql.NewRawObject("string")).From(sql.NewRawObject("samples")), nil }
+//@     go: render := func(p *LineFilterPlanner) string { q, err := p.Process(&shared.PlannerContext{}); if err != nil { panic(err) }; s, _ := q.String(sql.DefaultCtx()); return s }
+//@     go: p := &LineFilterPlanner{Op: "|~", Val: "a\\.b", Main: replayMain{}}
+//@     go: first, second := render(p), render(p)
+//@     go: if first != second { confirm("re-executing the prepared plan changes the statement: first " + first + " then " + second) }
+//@     go: neg := render(&LineFilterPlanner{Op: "!~", Val: "a.*b", Main: replayMain{}})
+//@     go: if neg == render(&LineFilterPlanner{Op: "|~", Val: "a.*b", Main: replayMain{}}) { confirm("!~ with a non-literal regex renders the same condition as |~: " + neg) }
+//@   end
